@@ -1,8 +1,14 @@
 import ZV.Model.C32
+import ZV.Model.C32Kx
 /-! `c32 rd <vers (0 = none)> <stream hex>` → `<m<type>:<len>,…|-> <err|cx|panic> pos=<n> hand=<n> retry=<n>`
     `c32 dg <suite> <vers> <typ> <plain hex> <mode> <n> <outer typ> | <record type> <payload len> <kind> <block> <nonce>
             <overhead> <hasMac 0|1> <macSize> <dec hex> <auth 0|1>` → `plain <typ> <len>` | `alert <n>` | `panic`
-    (the fields before `|` tell the Go side how to build the record; the model reads the ones after it) -/
+    (the fields before `|` tell the Go side how to build the record; the model reads the ones after it)
+    `c32 kx eskx <vers> <isRSA 0|1> <rsa|ecdsa|ed25519> <sigalgs csv|-> <pointOK 0|1> <msg hex>`
+            → `ok curve=<n> pub=<hex> st=<n> h=<n> sig=<hex>` | `err` | `panic`
+    `c32 kx dskx <vers> <dss 0|1> <d|a|-|sig:hash csv> <msg hex>` → `ok p=<hex> g=<hex> ys=<hex> h=<n> sig=<hex>` | `err` | `panic`
+    `c32 kx rckx <vers> <msg hex>` / `c32 kx eckx <curve> <pointOK 0|1> <msg hex>` / `c32 kx dckx <p hex> <msg hex>`
+            → `ok n=<hex>` | `err` | `panic`      (msg = the whole handshake message, 4-byte header included) -/
 namespace ZV.C32
 
 def showEv (l : List (Nat × Nat)) : String :=
@@ -10,8 +16,62 @@ def showEv (l : List (Nat × Nat)) : String :=
 
 def showSt (st : St) : String := s!"pos={st.pos} hand={st.hand.length} retry={st.retry}"
 
+def natList (s : String) : Option (List Nat) :=
+  if s == "-" then some [] else (s.splitOn ",").mapM (·.toNat?)
+
+def pairList (s : String) : Option (List (Nat × Nat)) :=
+  if s == "-" then some []
+  else if s == "d" then some defaultSKXSignatureAlgorithms
+  else if s == "a" then some supportedSKXSignatureAlgorithms
+  else (s.splitOn ",").mapM (fun e =>
+    match e.splitOn ":" with
+    | [a, b] => (match a.toNat?, b.toNat? with | some x, some y => some (x, y) | _, _ => none)
+    | _ => none)
+
+def keyTypeOf (s : String) : Option KeyType :=
+  match s with
+  | "rsa" => some .rsa | "ecdsa" => some .ecdsa | "ed25519" => some .ed25519 | _ => none
+
+def showCkx : Res Bytes → String
+  | .ok n => s!"ok n={toHex n}"
+  | .err => "err"
+  | .panic => "panic"
+
+def handleKx (args : List String) : String :=
+  match args with
+  | ["eskx", v, r, kt, algs, pt, m] =>
+    match v.toNat?, keyTypeOf kt, natList algs, ofHex m with
+    | some vers, some k, some l, some msg =>
+      match ecdheSKXMsg ⟨vers, r == "1", k, l, pt == "1"⟩ msg with
+      | .ok o => s!"ok curve={o.curve} pub={toHex o.pub} st={o.sigType} h={o.hashId} sig={toHex o.sig}"
+      | .err => "err"
+      | .panic => "panic"
+    | _, _, _, _ => "bad-op"
+  | ["dskx", v, dss, lst, m] =>
+    match v.toNat?, pairList lst, ofHex m with
+    | some vers, some l, some msg =>
+      match dheSKXMsg ⟨vers, if dss == "1" then signatureDSA else signatureRSA, l⟩ msg with
+      | .ok o => s!"ok p={toHex (stripZeros o.p)} g={toHex (stripZeros o.g)} ys={toHex (stripZeros o.ys)} h={o.hashId} sig={toHex o.sig}"
+      | .err => "err"
+      | .panic => "panic"
+    | _, _, _ => "bad-op"
+  | ["rckx", _, m] =>
+    match ofHex m with
+    | some msg => showCkx (ckxMsg .rsa msg)
+    | none => "bad-op"
+  | ["eckx", _, pt, m] =>
+    match ofHex m with
+    | some msg => showCkx (ckxMsg (.ecdhe (pt == "1")) msg)
+    | none => "bad-op"
+  | ["dckx", p, m] =>
+    match ofHex p, ofHex m with
+    | some pb, some msg => showCkx ((ckxMsg (.dhe pb) msg).map stripZeros)
+    | _, _ => "bad-op"
+  | _ => "bad-op"
+
 def handle (args : List String) : String :=
   match args with
+  | "kx" :: rest => handleKx rest
   | ["rd", v, h] =>
     match v.toNat?, ofHex h with
     | some vers, some s =>
